@@ -9,12 +9,11 @@ import (
 	"math"
 	"os"
 	"path/filepath"
-	"runtime"
-	"time"
 	"sort"
 	"strconv"
 	"strings"
 	"sync"
+	"time"
 
 	"github.com/pinealctx/neptune/syncx/pipe"
 	"github.com/pinealctx/neptune/syncx/pipe/async"
@@ -257,7 +256,6 @@ func kindName(k string) string {
 
 func newExec(kind string, lanes, capQ int) *exec {
 	e := &exec{kind: kind, lanes: lanes, capQ: capQ, s: sched.New(), laneRun: map[int]int{}, laneSeq: map[int]int{}}
-	e.s.Timeout = 20e9
 	switch kind {
 	case "line":
 		wg := &sync.WaitGroup{}
@@ -283,7 +281,7 @@ func newExec(kind string, lanes, capQ int) *exec {
 }
 
 func (e *exec) settle() {
-	if err := e.s.Settle(); err != nil {
+	if err := quiesce(20 * time.Second); err != nil {
 		harnessFail(err)
 	}
 }
@@ -407,20 +405,6 @@ func (e *exec) drain() string {
 			c.ret = r
 			e.checkRouting(c)
 			evs = append(evs, fmt.Sprintf("ret:%d:%s", c.id, r))
-		}
-	}
-	for _, ev := range evs {
-		if strings.HasPrefix(ev, "end:") {
-			id, _ := strconv.Atoi(ev[4:])
-			c := e.calls[id]
-			if !c.cancelled && !c.reported && !(e.kind == "pchan" && e.stopped) {
-				fmt.Fprintf(os.Stderr, "DEBUG caller %d not done after end; task state %s\n", id, c.task.State())
-				buf := make([]byte, 1<<20)
-				n := runtime.Stack(buf, true)
-				fmt.Fprintf(os.Stderr, "RAW\n%s\nENDRAW\n", buf[:n])
-				time.Sleep(50 * time.Millisecond)
-				fmt.Fprintf(os.Stderr, "later: task state %s\n", c.task.State())
-			}
 		}
 	}
 	if !e.exited {
@@ -705,7 +689,11 @@ func runScript(lines []string) ([]string, map[string]string) {
 
 // scripts whose outcome depends on Go's random `select` (ProcChan, a call after Stop) are executed several
 // times on the real code so that the monitors see every resolution with high probability.
-func amplify(lines []string) int {
+func amplify(tag string, lines []string) int {
+	n := 6
+	if tag == "replay" || tag == "corpus" || strings.HasPrefix(tag, "witness") {
+		n = 64
+	}
 	pchan, stopped := false, false
 	for _, l := range lines {
 		switch {
@@ -714,7 +702,7 @@ func amplify(lines []string) int {
 		case l == "stop":
 			stopped = true
 		case strings.HasPrefix(l, "call ") && pchan && stopped:
-			return 10
+			return n
 		}
 	}
 	return 1
@@ -722,7 +710,7 @@ func amplify(lines []string) int {
 
 func runCase(c corr.Case) corr.Result {
 	var res corr.Result
-	n := amplify(c.Lines)
+	n := amplify(c.Tag, c.Lines)
 	seen := map[string]bool{}
 	for i := 0; i < n; i++ {
 		outs, hits := runScript(c.Lines)
@@ -939,9 +927,9 @@ func spec() corr.Spec {
 		},
 		Shards: func(tier string) int {
 			if tier == "quick" {
-				return 8
+				return 4
 			}
-			return 14
+			return 10
 		},
 		Gen: func(r *rng.R, tier string, i int) corr.Case {
 			switch {
